@@ -21,6 +21,9 @@ type KnownFinding struct {
 	Key      string         `json:"key"`
 	What     string         `json:"what"`
 	Input    map[string]any `json:"input,omitempty"`
+	// Fails: the obligations the finding covers, as "kind: label" prefixes.  A violation inside the
+	// finding's input class that breaks any OTHER obligation is an ordinary VIOLATION.
+	Fails []string `json:"fails,omitempty"`
 }
 type KnownFile struct {
 	Findings []KnownFinding `json:"findings"`
@@ -83,11 +86,25 @@ func cmdCheck(args []string) int {
 	kf := loadKnown(verif)
 	known := map[string]bool{}
 	knownWhat := map[string]string{}
+	knownFails := map[string][]string{}
 	for _, f := range kf.Findings {
 		if f.Property == id {
 			known[f.Key] = true
 			knownWhat[f.Key] = f.What
+			knownFails[f.Key] = f.Fails
 		}
+	}
+	covered := func(v Violation) bool {
+		fl := knownFails[v.Known]
+		if len(fl) == 0 {
+			return true
+		}
+		for _, p := range fl {
+			if strings.HasPrefix(v.Kind+": "+v.Label, p) {
+				return true
+			}
+		}
+		return false
 	}
 	runs := def.Runs(*tier)
 	rep := newReplayer(w)
@@ -189,7 +206,10 @@ func cmdCheck(args []string) int {
 				}
 				continue
 			}
-			if hit.Known != "" {
+			if os.Getenv("VERIF_DEBUG_KNOWN") != "" && hit.Known != "" {
+				fmt.Printf("DEBUG known class %s: %s: %s\n", hit.Known, hit.Kind, hit.Label)
+			}
+			if hit.Known != "" && covered(hit) {
 				if !knownLines[hit.Known] {
 					knownLines[hit.Known] = true
 					fmt.Printf("KNOWN-FINDING: property=%s %s: %s [reproduced: run=%s %s %q]\n", id, hit.Known, knownWhat[hit.Known], spec.Name, hit.Kind, hit.Label)
